@@ -45,6 +45,18 @@ func runC15(c *Ctx) {
 	}
 	userName := []string{"alice", "bob@corp.test", "administrator", "u"}[c.T.Choose(4)]
 	user := &env.IdPUser{Sub: "s-" + userName, Claims: map[string]any{"preferred_username": userName}}
+	// history: a moment earlier a different account, whose name differs from this one only in
+	// case (or extends it), got a token of its own
+	earlier := ""
+	if c.T.Bool(1, 3) {
+		earlier = []string{strings.ToUpper(userName[:1]) + userName[1:], strings.ToUpper(userName), userName + "2"}[c.T.Choose(3)]
+		b0 := c.W.NewBrowser("b0", "10.2.0.4:50999")
+		if loginAndFile(c, b0, &env.IdPUser{Sub: "s-" + earlier, Claims: map[string]any{"preferred_username": earlier}}, "/connect") == nil {
+			return
+		}
+		c.S.Advance(time.Duration(c.T.Choose(90)) * time.Second)
+		c.S.Count("probe.earlier_mint_for_similar_name")
+	}
 	b := c.W.NewBrowser("b1", "10.2.0.5:51000")
 	f := loginAndFile(c, b, user, "/connect")
 	if f == nil {
@@ -76,6 +88,14 @@ func runC15(c *Ctx) {
 	}
 	disclosed := func(r *env.HTTPResult) bool {
 		return strings.Contains(string(r.Body), userName) && len(userName) > 2 || strings.Contains(string(r.Body), `"sub"`)
+	}
+	if earlier != "" {
+		// a token minted for user U yields subject U
+		r0 := ask("ti-own", "GET", "?access_token="+url.QueryEscape(tok))
+		if m := claimsOf(r0); r0.Status != 200 || m["sub"] != userName {
+			c.S.Fail("C15", "valid-token-refused", "mode=%s: the token minted for %q (after an earlier mint for %q) yields %d sub=%v", map[bool]string{false: "encrypt-only", true: "sign-and-encrypt"}[signMode], userName, earlier, r0.Status, m["sub"])
+			return
+		}
 	}
 	trial := c.T.Choose(16)
 	var r *env.HTTPResult
